@@ -8,6 +8,7 @@ pub mod fall;
 pub mod conc;
 pub mod text;
 pub mod pb;
+pub mod c16;
 use crate::Area;
 pub fn lookup(name: &str) -> Option<Box<dyn Area>> {
     match name {
@@ -20,6 +21,7 @@ pub fn lookup(name: &str) -> Option<Box<dyn Area>> {
         "fall" => Some(Box::new(fall::FallArea)),
         "text" => Some(Box::new(text::TextArea)),
         "pb" => Some(Box::new(pb::PbArea)),
+        "c16" => Some(Box::new(c16::C16Area)),
         "catom" => Some(Box::new(conc::ConcAtomic { kinds: &["counter", "intcounter", "gauge", "intgauge"] })),
         "catomc" => Some(Box::new(conc::ConcAtomic { kinds: &["counter", "intcounter"] })),
         "catomg" => Some(Box::new(conc::ConcAtomic { kinds: &["gauge", "intgauge"] })),
